@@ -8,7 +8,7 @@ M = 'DocumentTemplate._DocumentTemplate'
 FUNCS = [M + '.TemplateDict.getitem#C02', M + '.InstanceDict.__getitem__',
          'DocumentTemplate.DT_String.String.__call__#toplevel', 'DocumentTemplate.DT_String.String.__call__#subtemplate',
          'DocumentTemplate.DT_String.String.initvars',
-         'DocumentTemplate.DT_With.With.render#C02', 'DocumentTemplate.DT_Let.Let.render#C02',
+         'DocumentTemplate.DT_With.With.render#C02', 'DocumentTemplate.DT_Let.Let.render#C02', 'DocumentTemplate.DT_Let.Let.__init__#C02.compile',
          'DocumentTemplate.DT_Util.Eval.eval', M + '.render_blocks_',
          'DocumentTemplate.DT_Try.Try.render_try_except#C14']
 
